@@ -2,11 +2,15 @@ package checks
 
 import (
 	"bytes"
+	"context"
 	"errors"
 	"flag"
 	"fmt"
+	"io"
+	"io/fs"
 	"os"
 	"path/filepath"
+	"syscall"
 
 	"github.com/google/go-tdx-guest/client"
 	labi "github.com/google/go-tdx-guest/client/linuxabi"
@@ -117,12 +121,13 @@ func runC15(r *mc.Run) {
 		name string
 		err  error
 		res  uintptr
-	}{{"ok", nil, 0}, {"err", errors.New("EIO"), 0}, {"r1", nil, 1}, {"r7", nil, 7}, {"r8", nil, 8}, {"r9", nil, 9}, {"r2^32", nil, 1 << 32}}
+	}{{"ok", nil, 0}, {"err", errors.New("EIO"), 0}, {"r1", nil, 1}, {"r7", nil, 7}, {"r8", nil, 8}, {"r9", nil, 9}, {"r2^32", nil, 1 << 32},
+		{"EINTR", syscall.EINTR, 0}, {"EAGAIN", syscall.EAGAIN, 0}, {"err+result1", errors.New("EIO"), 1}, {"r2^63", nil, 1 << 63}, {"r2^32+1", nil, 1<<32 + 1}, {"r-1", nil, ^uintptr(0)}}
 	qOutcomes := []struct {
 		name string
 		err  error
 		res  uintptr
-	}{{"ok", nil, 0}, {"err", errors.New("EBUSY"), 0}, {"r1", nil, 1}, {"r9", nil, 9}}
+	}{{"ok", nil, 0}, {"err", errors.New("EBUSY"), 0}, {"r1", nil, 1}, {"r9", nil, 9}, {"EINTR", syscall.EINTR, 0}, {"EAGAIN", syscall.EAGAIN, 0}, {"r2^32", nil, 1 << 32}, {"r2^63", nil, 1 << 63}}
 	statuses := []uint64{0, 0xffffffffffffffff, 0x8000000000000000, 0x8000000000000001, 1, 1 << 62}
 	if r.Thorough() {
 		for bit := 0; bit < 64; bit++ {
@@ -267,14 +272,23 @@ func runC15(r *mc.Run) {
 		name string
 		b    []byte
 	}{{"nil", nil}, {"empty", []byte{}}, {"quote", quote}, {"garbage", world.Fill("garbage", 100)}}
+	// errors of the kinds a report file system produces: whatever the error is, it is the provider's to return
+	provErrs := []error{nil, errors.New("provider failure"), syscall.ENOENT, fs.ErrNotExist, &fs.PathError{Op: "open", Path: "/sys/kernel/config/tsm/report/x/outblob", Err: syscall.ENOENT},
+		fmt.Errorf("reading report: %w", fs.ErrNotExist), syscall.EBUSY, &fs.PathError{Op: "read", Path: "outblob", Err: syscall.EACCES}, fs.ErrPermission, syscall.ENXIO, syscall.ENODEV, io.EOF, io.ErrUnexpectedEOF,
+		context.DeadlineExceeded, os.ErrDeadlineExceeded, fs.ErrClosed}
+	provErrNames := []string{"nil", "plain", "ENOENT", "fs.ErrNotExist", "PathError(ENOENT)", "wrapped(fs.ErrNotExist)", "EBUSY", "PathError(EACCES)", "fs.ErrPermission", "ENXIO", "ENODEV", "io.EOF", "io.ErrUnexpectedEOF",
+		"context.DeadlineExceeded", "os.ErrDeadlineExceeded", "fs.ErrClosed"}
 	for _, sup := range []bool{true, false} {
 		for _, pbts := range provBytes {
-			for _, perr := range []error{nil, errors.New("provider failure")} {
+			for pi, perr := range provErrs {
 				for _, path := range []string{missing, regular} {
 					if sup && path == regular {
 						continue
 					}
 					id := fmt.Sprintf("provider/supported=%v,bytes=%s,err=%v,path=%s", sup, pbts.name, perr != nil, filepath.Base(path))
+					if pi >= 2 {
+						id = fmt.Sprintf("provider/supported=%v,bytes=%s,err=%s,path=%s", sup, pbts.name, provErrNames[pi], filepath.Base(path))
+					}
 					if !r.Want(id) {
 						continue
 					}
